@@ -11,7 +11,7 @@
    reverse_accumulation composes any sequence of such layers with the objective; the soft-max /
    cross-entropy pair is treated separately. *)
 From NV Require Import Prelude Num NumR Random Tensor Activation Layers.
-From NV.Theory Require Import Lists RSum Adjoint Deriv Chain C01.
+From NV.Theory Require Import Lists RSum Adjoint Deriv Chain C01 Forward PoolDeriv.
 Require Import Reals.
 From Coquelicot Require Import Coquelicot.
 Import ListNotations.
@@ -362,4 +362,33 @@ Theorem C01_reverse_layer_walk_composes :
           is_derive (fun t : R_AbsRing => Lf (run nw X t)) h0 (param_pairing nw gps + dotp d gin X').
 Proof. exact @reverse_accumulation. Qed.
 Print Assumptions C01_reverse_layer_walk_composes.
+
+
+Theorem C01_maxpool_forward_cell_gradient_is_derivative_away_from_ties :
+  forall (kc ih iw oh ow kh kw sh sw : nat) (Xd : R -> vec3 R) (X' : nat -> nat -> nat -> R)
+           (h0 : R_AbsRing) (g : nat -> nat -> nat -> R) (iy ix : nat -> nat -> nat -> nat),
+         (forall c y x : nat,
+          (c < kc)%nat ->
+          (y < ih)%nat -> (x < iw)%nat -> is_derive (fun t : R_AbsRing => get3 z0 (Xd t) c y x) h0 (X' c y x)) ->
+         (forall c oy ox : nat,
+          (c < kc)%nat ->
+          (oy < oh)%nat ->
+          (ox < ow)%nat ->
+          let m := (iy c oy ox, ix c oy ox) in
+          (iy c oy ox < ih)%nat /\
+          (ix c oy ox < iw)%nat /\
+          In m (window kh kw (oy * sh) (ox * sw)) /\
+          (forall q : nat * nat,
+           In q (window kh kw (oy * sh) (ox * sw)) -> (fst q < ih)%nat /\ (snd q < iw)%nat) /\
+          nfmin NumR < get3 z0 (Xd h0) c (fst m) (snd m) /\
+          (forall q : nat * nat,
+           In q (window kh kw (oy * sh) (ox * sw)) ->
+           q <> m -> get3 z0 (Xd h0) c (fst q) (snd q) < get3 z0 (Xd h0) c (fst m) (snd m))) ->
+         is_derive
+           (fun t : R_AbsRing =>
+            bsum3 kc oh ow
+              (fun c oy ox : nat => g c oy ox * fst (pool_cell NumR (Xd t) (kh, kw) c (oy * sh) (ox * sw)))) h0
+           (bsum3 kc ih iw (fun c a b : nat => X' c a b * pool_igR oh ow g iy ix c a b)).
+Proof. exact @maxpool_gradient_is_derivative. Qed.
+Print Assumptions C01_maxpool_forward_cell_gradient_is_derivative_away_from_ties.
 
